@@ -10,6 +10,8 @@ U16(v)      == [k |-> "u16",   v |-> v]           \* big endian
 U24(v)      == [k |-> "u24",   v |-> v]           \* big endian
 U32(v)      == [k |-> "u32",   v |-> v]           \* big endian, v < 2^31
 U32X(hi,lo) == [k |-> "u32x",  hi |-> hi, lo |-> lo] \* big endian, hi16/lo16 limbs
+U32F(hi,lo) == [k |-> "u32f",  hi |-> hi, lo |-> lo] \* like U32X, but a field whose value the format leaves to the
+                                                  \* writer: bytes written by the code are not compared at these 4 positions
 U32LE(v)    == [k |-> "u32le", v |-> v]           \* little endian, v < 2^31
 Raw(b)      == [k |-> "raw",   b |-> b]           \* literal bytes
 Fill(n, id) == [k |-> "fill",  n |-> n, id |-> id] \* n distinguishable payload bytes
@@ -21,6 +23,7 @@ FieldLen(f) ==
     [] f.k = "u24"   -> 3
     [] f.k = "u32"   -> 4
     [] f.k = "u32x"  -> 4
+    [] f.k = "u32f"  -> 4
     [] f.k = "u32le" -> 4
     [] f.k = "raw"   -> Len(f.b)
     [] f.k = "fill"  -> f.n
@@ -46,6 +49,7 @@ FieldBytes(f) ==
     [] f.k = "u24"   -> <<f.v \div 65536, (f.v \div 256) % 256, f.v % 256>>
     [] f.k = "u32"   -> <<f.v \div 16777216, (f.v \div 65536) % 256, (f.v \div 256) % 256, f.v % 256>>
     [] f.k = "u32x"  -> <<f.hi \div 256, f.hi % 256, f.lo \div 256, f.lo % 256>>
+    [] f.k = "u32f"  -> <<f.hi \div 256, f.hi % 256, f.lo \div 256, f.lo % 256>>
     [] f.k = "u32le" -> <<f.v % 256, (f.v \div 256) % 256, (f.v \div 65536) % 256, f.v \div 16777216>>
     [] f.k = "raw"   -> f.b
     [] f.k = "fill"  -> [i \in 1..f.n |-> FillByte(f.id, i - 1)]
